@@ -1729,9 +1729,24 @@ fn run_child(kind: &str, n: usize, api: &str) -> ChildEnd {
             }
             Ok(None) => {
                 if t0.elapsed() > Duration::from_secs(60) {
-                    let _ = child.kill();
-                    let _ = child.wait();
-                    return ChildEnd::Timeout;
+                    // wall-clock alone is no verdict on a loaded (or briefly frozen) machine: a
+                    // child that is still consuming CPU gets more time, one that makes no
+                    // progress over 1.5 s is a hang
+                    let ticks = |pid: u32| -> Option<u64> {
+                        let st = std::fs::read_to_string(format!("/proc/{pid}/stat")).ok()?;
+                        let rest = st.rsplit(") ").next()?;
+                        let f: Vec<&str> = rest.split_whitespace().collect();
+                        Some(f.get(11)?.parse::<u64>().ok()? + f.get(12)?.parse::<u64>().ok()?)
+                    };
+                    let a = ticks(child.id());
+                    std::thread::sleep(Duration::from_millis(1500));
+                    let b = ticks(child.id());
+                    let progressing = matches!((a, b), (Some(x), Some(y)) if y > x);
+                    if !progressing || t0.elapsed() > Duration::from_secs(600) {
+                        let _ = child.kill();
+                        let _ = child.wait();
+                        return ChildEnd::Timeout;
+                    }
                 }
                 std::thread::sleep(Duration::from_millis(2));
             }
